@@ -30,6 +30,9 @@ def strategy():
         contigs = [['c%d' % i, draw(st.sampled_from([b * draw(st.integers(2, 12)), b * draw(st.integers(2, 12)) + draw(st.integers(1, b - 1))]))]
                    for i in range(nc)]
         contigs = [[n, max(L, 120)] for n, L in contigs]
+        if draw(st.booleans()):
+            # one base more than a whole number of jobs: the last base of the contig is a job (and bin) of its own
+            contigs[0][1] = b * draw(st.sampled_from([2, 4, 6, 10, 12])) + 1
         maxfrag = draw(st.sampled_from([50, 100, 1000]))
         parts_ = [1, 2, 3, 5, 7, 1000]
         recs = []
@@ -39,18 +42,22 @@ def strategy():
             L = contigs[tid][1]
             bpj = draw(st.sampled_from([1, 2, 3, 5]))
             step = b * bpj
-            kind = draw(st.sampled_from(['boundary', 'boundary', 'pm1', 'any', 'far']))
+            kind = draw(st.sampled_from(['boundary', 'boundary', 'pm1', 'any', 'far', 'last', 'zero']))
             if kind == 'boundary':
                 site = draw(st.integers(0, max(0, (L - 1) // step))) * step
             elif kind == 'pm1':
                 site = draw(st.integers(0, max(0, (L - 1) // step))) * step + draw(st.sampled_from([-1, 1]))
+            elif kind == 'last':
+                site = L - 1
+            elif kind == 'zero':
+                site = 0
             else:
                 site = draw(st.integers(0, L - 1))
             site = min(max(0, site), L - 1)
             rl = 20
             # read position: at the site, or up to maxfrag-1 away from it (site upstream or downstream of the read)
             side = draw(st.sampled_from(['at', 'at', 'site_upstream', 'site_downstream']))
-            dist = draw(st.integers(1, maxfrag - 1)) if kind == 'far' else draw(st.sampled_from([1, 3, min(maxfrag, 40) - 1]))
+            dist = draw(st.integers(1, maxfrag - 1)) if kind in ('far', 'zero', 'last') else draw(st.sampled_from([1, 3, min(maxfrag, 40) - 1]))
             if side == 'at':
                 pos = site
             elif side == 'site_upstream':
